@@ -13,12 +13,15 @@
   Part B — protocol safety, for EVERY stream expression, EVERY source script (inline / pending,
   reacting to stop or not), EVERY consumer and EVERY sequence of legal external events:
   cleanup() of a source is started at most once, never while its next() is outstanding, and when the
-  consumer's result is delivered every source whose next() was ever started has completed its cleanup.
+  consumer's result is delivered every source whose next() was ever started has completed its cleanup;
+  and (expressions without take_until) the delivered elements are always a prefix of the specified
+  sequence, wherever a stop request arrives.
 
   Part C — what the model says about take_until's cleanup operation objects (DESIGN §8 #6).
 -/
 import UnifexModel.Calc.StreamLemmas
 import UnifexModel.Calc.StreamSafetyRoot
+import UnifexModel.Calc.StreamPrefix
 
 namespace Unifex.Props.C13
 open Unifex.Stream
@@ -249,6 +252,21 @@ theorem cleanup_once_iff_next_started (c : Consumer) (e : SExpr) (evs : List REv
   · exact h
   · omega
 
+/-- **stop_ends_early_no_dup_no_invent**: whatever happens — a stop request at ANY position of the event
+    sequence, completions in any order, errors, a throwing reducer — the elements handed to the consumer
+    are, in order, a PREFIX of the sequence the specification assigns to the pipeline without stop: nothing
+    is duplicated, reordered or invented; a stop request (or an error) can only end the sequence early.
+    For every stream expression WITHOUT take_until, every source script, every consumer, every sequence of
+    legal external events.  (With take_until the trigger legitimately truncates the source at a point the
+    specification of the source alone cannot name; for those pipelines see
+    `stop_ends_early_no_dup_no_invent_partial` and the differential tie.) -/
+theorem stop_ends_early_no_dup_no_invent (c : Consumer) (e : SExpr) (hnt : e.NoTake) (evs : List REv) :
+    (final specs c e evs).delivered <+: (e.den specs false).1 := by
+  have h := runEvents_phi specs ((connect e).phi specs) evs (Root.init c e) (init_inv c e)
+    (init_pinv specs c e (connect_noTake e hnt) (connect_SI2 e))
+  rw [← connect_phi specs e hnt]
+  exact h.pre
+
 /-- **stop_immediately_abandons_then_awaits**: (1) a stop request while next(source) is outstanding
     completes the adaptor's next() with done AT ONCE, whatever the source does with the stop request;
     (2) cleanup() called while the abandoned next(source) is still running starts nothing and waits;
@@ -317,6 +335,15 @@ example :
       [.start, .compNext 2, .compNext 1, .compClean 1]).1
     rt.result = some (.value 3) ∧ rt.delivered = [3] ∧
       rt.op.leaves.map (fun p => (p.2.k, p.2.cleanups, p.2.bad)) = [(2, 1, 0), (1, 1, 0)] := by
+  decide +kernel
+
+/-- a stop request in the middle truncates: the consumer got [2] out of the specified [2, 4, 6]
+    (`stop_ends_early_no_dup_no_invent` instantiated on a run where the truncation does happen) -/
+example :
+    let specs : Nat → SrcSpec := fun _ => ⟨[.pend (.value 2) .ignore, .pend (.value 4) .completeDone, .pend (.value 6) .ignore], .inl none⟩
+    let e := SExpr.filter .even (.stopImmediately (.src 1))
+    (runEvents specs (Root.init ⟨.reduce, 0, 10, none⟩ e) [.start, .compNext 1, .stop, .compNext 1]).1.delivered = [2] ∧
+      (e.den specs false).1 = [2, 4, 6] := by
   decide +kernel
 
 end Unifex.Props.C13
